@@ -2,6 +2,7 @@
 import rules_dispatch  # noqa: F401  (registers rules)
 import rules_serial  # noqa: F401
 import rules_effects  # noqa: F401
+import rules_conc  # noqa: F401
 
 COMMON_ASSUME = [
     "clang 14 front end parses /repo as g++ 12 compiles it (same flags, -std=gnu++17, -UNDEBUG)",
@@ -41,6 +42,44 @@ PROPS = {
         "not_decided": ["that every element of every saved array was initialised by the builder (value/coverage reasoning per loop)",
                         "byte equality of two builds from the same input (needs R-NONDET over the builders; value-level beyond that)"],
         "assumptions": COMMON_ASSUME + ["pointer roots are tracked flow-insensitively per function; a store through a pointer loaded from a dictionary field is attributed to that field"],
+    },
+    "C09": {
+        "rules": ["R-SLOT", "R-JOIN", "R-PARAMFLOW", "R-WORKERPURE", "R-NONDET", "R-CV"],
+        "explanation": "Schedule-independence argued structurally: every worker-visible input is fixed before the task is queued and every "
+                       "worker-written output goes to a slot reserved before queuing (R-SLOT); the constructor cannot return, free the input or "
+                       "let captures die before wait -> stop -> join on any CFG path (R-JOIN); thread_count reaches only the pool size "
+                       "(R-PARAMFLOW); the task closure (rapid type analysis from the queued lambda) touches no mutable global and never stores "
+                       "into the shared text (R-WORKERPURE); no clock/random/pid/pointer-order dependence on any build path (R-NONDET); the "
+                       "completion wait obeys the monitor discipline (R-CV).",
+        "decided": ["slot reserved under the lock before queuing, captured by value, only store of the task into shared state (R-SLOT)",
+                    "wait/stop/join on all paths, input and captures outlive the workers (R-JOIN)",
+                    "thread_count -> pool size only; cut_size -> cut decision and header only (R-PARAMFLOW)",
+                    "task closure: no global/static write, no read of a written global, no store into the input text (R-WORKERPURE)",
+                    "build/save closure free of nondeterminism sources (R-NONDET)", "completion wait: updates under the waiter's mutex, followed by notify (R-CV)"],
+        "not_decided": ["value-level determinism of the sequential block builder (shared with C08)"],
+        "assumptions": COMMON_ASSUME + ["new/malloc are thread-safe; std streams are internally synchronised"],
+    },
+    "C10": {
+        "rules": ["R-CV", "R-ONCE", "R-LOCKSET", "R-LOCKORDER"],
+        "explanation": "Lock-set dataflow on clang CFGs (RAII guards: gen at construction, kill at scope end/unlock; interprocedural "
+                       "must-held = intersection over call sites) with reference members resolved to the pool's objects. Decides the monitor "
+                       "discipline that makes lost wake-ups impossible, exactly-once removal and invocation of tasks, and a global lock order.",
+        "decided": ["every update of predicate state (queue, stop flags, completion counter) holds the waiter's mutex and is followed by notify on all paths (R-CV)",
+                    "pop only in Worker::run, under the shared mutex held since the non-empty test; task invoked exactly once, outside the lock; thread started last (R-ONCE)",
+                    "queue / stop flag accesses share a lock (R-LOCKSET)", "acyclic lock order, no self-lock (R-LOCKORDER)"],
+        "not_decided": ["nothing temporal is model-checked (different technique family); OS scheduler fairness assumed"],
+        "assumptions": COMMON_ASSUME + ["object identity is abstracted to the class (one queue / shared mutex per pool)"],
+    },
+    "C11": {
+        "rules": ["R-LOCKSET", "R-WORKERPURE", "R-JOIN", "R-SLOT"],
+        "explanation": "Static lock-set race check over every location shared between the producer role and the worker role (pool fields, "
+                       "fields and by-reference captures the task lambdas touch), with constructor-before-start and after-join exemptions "
+                       "justified by R-ONCE/R-JOIN; no unguarded global below the task (R-WORKERPURE).",
+        "decided": ["each written location reachable from worker threads has a non-empty common lock set over all its accesses (R-LOCKSET)",
+                    "no global/static mutable state in the task closure (R-WORKERPURE)", "lifetime of captures and input spans the workers (R-JOIN)",
+                    "tasks write only their reserved slot and the counter, under the lock (R-SLOT)"],
+        "not_decided": ["races inside libstdc++/libc (assumed thread-safe where documented)"],
+        "assumptions": COMMON_ASSUME + ["no inline assembly or atomics in the closure"],
     },
     "C14": {
         "rules": ["R-QUERYPURE", "R-PATTERN", "R-KILLUSE"],
